@@ -43,6 +43,7 @@ const (
 	kZeroPad        = "C10-QUANTIFIER-LEADING-ZERO"
 	kSplitEmpty     = "C10-SPLIT-EMPTY-STRING"
 	kDollar2        = "C10-DOLLAR-TWO-DIGIT"
+	kFoldPair       = "C10-FOLD-PAIR-CLASS-FACTORING"
 )
 
 // ---- otto access -----------------------------------------------------------------------------------
@@ -304,6 +305,9 @@ func levelFor(tr *m10.Trace, feat m10.Features, expectLone, splits bool) (level 
 	if feat.ZeroPadQuant && harness.Known(kZeroPad) {
 		lower(cmpNone, kZeroPad)
 	}
+	if feat.FoldPair && harness.Known(kFoldPair) {
+		lower(cmpNone, kFoldPair)
+	}
 	if expectLone && harness.Known(kLoneSurrogate) {
 		lower(cmpNone, kLoneSurrogate)
 	}
@@ -399,6 +403,9 @@ func checkMatch(c matchCase) harness.Outcome {
 		return harness.Outcome{Discard: "not a valid portable pattern: " + p.Why}
 	}
 	feat := m10.Analyse(p.Tree)
+	if strings.Contains(c.Flags, "i") {
+		feat.FoldPair = false // with the i flag every literal is folded: nothing to confuse
+	}
 	o := harness.Outcome{Classes: featureClasses(feat, c.Flags)}
 	o.Classes = append(o.Classes, "form:"+c.Form)
 	re := newModelRegExp(p, c.Flags)
@@ -578,6 +585,9 @@ func checkTranslate(c transCase) harness.Outcome {
 	tr := &m10.Trace{}
 	if p.Tree != nil && (p.Status == m10.Valid || p.Status == m10.Lenient) && fOK {
 		feat = m10.Analyse(p.Tree)
+		if strings.Contains(c.Flags, "i") {
+			feat.FoldPair = false
+		}
 		re = newModelRegExp(p, c.Flags)
 		mr = re.Exec(c.Subject, tr)
 		if tr.OverBudget {
